@@ -7,10 +7,15 @@ checked by TLC on Discovery.tla (design checks below) and reported as conformanc
 
 _DESIGN = [
     # the mechanism with the proposed repairs satisfies D1-D5 on every behaviour of the bounded configuration
-    dict(spec="MCDiscovery.tla", cfg="MCDiscovery.cfg", cfg_thorough="MCDiscovery_thorough.cfg", workers=6, timeout=2400, coverage=False),
+    dict(spec="MCDiscovery.tla", cfg="MCDiscovery.cfg", cfg_thorough="MCDiscovery_thorough.cfg", workers=6, timeout=3000, coverage=False),
     # the mechanism as the code has it: D2, D3, the Pulling bound, the exact shape of what a late response re-creates,
     # and "a crash only when a preempted response handler resumes after a deletion"
     dict(spec="MCDiscovery.tla", cfg="MCDiscoveryAsIs.cfg", cfg_thorough="MCDiscoveryAsIs_thorough.cfg", workers=6, timeout=3000, coverage=False),
+    # the same with retrievals of data chunks interleaved (D3 beyond the pieces that travel in the pyramid)
+    dict(spec="MCDiscovery.tla", cfg="MCDiscoveryRetr.cfg", workers=6, timeout=3000, coverage=False, thorough_only=True),
+    dict(spec="MCDiscovery.tla", cfg="MCDiscoveryAsIsRetr.cfg", workers=6, timeout=3000, coverage=False, thorough_only=True),
+    # D5 as a liveness property (every Init call returns) under fairness of ticker, timeout trigger and message handling
+    dict(spec="MCDiscovery.tla", cfg="MCDiscoveryLive.cfg", workers=4, timeout=3000, coverage=False, thorough_only=True),
 ]
 
 
